@@ -39,7 +39,7 @@ func loadEnv() envCfg {
 		OutFile:  os.Getenv("VERIF_OUT"),
 		FailFile: os.Getenv("VERIF_FAILCASE"),
 		Journal:  os.Getenv("VERIF_JOURNAL"),
-		CaseSecs: 60,
+		CaseSecs: 180,
 		HeapMiB:  2048,
 	}
 	c.Shard, _ = strconv.Atoi(getenv("VERIF_SHARD", "0"))
@@ -202,9 +202,18 @@ type Outcome struct {
 	Err        error
 }
 
-func (o *Outcome) class(s string)                       { o.Classes = append(o.Classes, s) }
-func (o *Outcome) classIf(b bool, s string)             { if b { o.Classes = append(o.Classes, s) } }
-func (o *Outcome) failf(f string, a ...any) *Outcome    { if o.Err == nil { o.Err = fmt.Errorf(f, a...) }; return o }
+func (o *Outcome) class(s string) { o.Classes = append(o.Classes, s) }
+func (o *Outcome) classIf(b bool, s string) {
+	if b {
+		o.Classes = append(o.Classes, s)
+	}
+}
+func (o *Outcome) failf(f string, a ...any) *Outcome {
+	if o.Err == nil {
+		o.Err = fmt.Errorf(f, a...)
+	}
+	return o
+}
 
 func (s *Stats) record(c any, o *Outcome) {
 	s.mu.Lock()
